@@ -172,7 +172,7 @@ def run(ctx: Ctx) -> None:
                 "ops": [s["op"] for s in behs[len(behs) // 3]["steps"]]})
 
     # ---- 4. spec -> code: simulated longer histories, all shapes --------------------------------
-    nsim = ctx.pick(120, 1500)
+    nsim = ctx.pick(80, 1500)
     depth = ctx.pick(5, 7)
     scfg = fv.cfg_text("GSpecRuns", **common, max_ops=depth, shapes=("bare", "list"), **flags,
                        invariants=["EmitSim"], view=False)
@@ -189,7 +189,7 @@ def run(ctx: Ctx) -> None:
     ctx.note("replay_stats", stats)
 
     # ---- 5. code -> spec: random histories on the real scheduler, validated by TLC ---------------
-    ntr = ctx.pick(120, 1000)
+    ntr = ctx.pick(80, 1000)
     tu = dict(dirs=["d", "e"], names=["a", "b"], bytes_=[1, 2, 3, 4], mtimes=[1, 2, 3])
     traces = []
     for n in range(ntr):
